@@ -639,10 +639,20 @@ func (w *World) probeCorrupt(ev Event) bool {
 		if v5.Meta != nil {
 			v5.Meta.URIs = append(v5.Meta.URIs, []byte{}, []byte("u"))
 			v5.Meta.Royalties = uint32(r.Intn(1 << 20))
+			if r.Intn(2) == 0 {
+				// the byte-length boundaries of the base-128 spelling
+				vb := []uint64{127, 128, 16383, 16384, 1<<21 - 1, 1 << 21, 1<<28 - 1, 1 << 28}
+				v5.Meta.Royalties = uint32(vb[r.Intn(len(vb))])
+				v5.Meta.Nonce = vb[r.Intn(len(vb))]
+				v5.Meta.Attributes = make([]byte, []int{127, 128, 16383, 16384}[r.Intn(4)])
+			}
 			v5.Meta.Nonce = uint64(r.Int63())<<1 | 1
 		}
 		v6 := spec.CloneToken(t)
 		v6.Type = uint32(r.Intn(1 << 16))
+		if r.Intn(2) == 0 {
+			v6.Type = []uint32{127, 128, 16383, 16384, 1<<21 - 1, 1 << 21}[r.Intn(6)]
+		}
 		v6.Value = new(big.Int).Lsh(big.NewInt(int64(1+r.Intn(255))), uint(8*r.Intn(40)))
 		variants = append(variants, v1, v2, v3, v4, v5, v6)
 		for _, vt := range variants {
